@@ -5,6 +5,7 @@ import (
 	"compress/flate"
 	"crypto/tls"
 	"fmt"
+	"io"
 	"net"
 	"strings"
 	"sync"
@@ -154,8 +155,9 @@ type clientV2 struct {
 	net.Conn
 
 	// connections based on negotiated features
-	tlsConn     *tls.Conn
-	flateWriter *flate.Writer
+	tlsConn      *tls.Conn
+	flateWriter  *flate.Writer
+	snappyWriter *snappy.Writer
 
 	// reading/writing interfaces
 	Reader *bufio.Reader
@@ -561,10 +563,24 @@ func (c *clientV2) SetOutputBuffer(desiredSize int, desiredTimeout int) error {
 		if err != nil {
 			return err
 		}
-		c.Writer = bufio.NewWriterSize(c.Conn, c.OutputBufferSize)
+		c.Writer = bufio.NewWriterSize(c.outputTarget(), c.OutputBufferSize)
 	}
 
 	return nil
+}
+
+// outputTarget returns what the buffered Writer has to write to: the innermost
+// layer negotiated so far (deflate / snappy / TLS), or the plain connection
+func (c *clientV2) outputTarget() io.Writer {
+	switch {
+	case c.flateWriter != nil:
+		return c.flateWriter
+	case c.snappyWriter != nil:
+		return c.snappyWriter
+	case c.tlsConn != nil:
+		return c.tlsConn
+	}
+	return c.Conn
 }
 
 func (c *clientV2) SetSampleRate(sampleRate int32) error {
@@ -643,7 +659,8 @@ func (c *clientV2) UpgradeSnappy() error {
 
 	c.Reader = bufio.NewReaderSize(snappy.NewReader(conn), defaultBufferSize)
 	//lint:ignore SA1019 NewWriter is deprecated by NewBufferedWriter, but we're doing our own buffering
-	c.Writer = bufio.NewWriterSize(snappy.NewWriter(conn), c.OutputBufferSize)
+	c.snappyWriter = snappy.NewWriter(conn)
+	c.Writer = bufio.NewWriterSize(c.snappyWriter, c.OutputBufferSize)
 
 	atomic.StoreInt32(&c.Snappy, 1)
 
